@@ -1,10 +1,12 @@
 //! gv-run: reads jobs (S-expressions, one per top-level form) from a file, runs each against
 //! garble_lang (built from /repo's working tree with the verif_hooks feature) and prints one
 //! result line `(<id> <payload>)` per job.  Every library call runs under catch_unwind.
+mod bristol;
 mod builder;
 mod circ;
 mod exhaust;
 mod lit;
+mod prog;
 mod sexp;
 
 use sexp::*;
@@ -19,6 +21,10 @@ fn run_job(job: &Sexp) -> String {
         "builder" => builder::job_builder(job),
         "literal" => lit::job_literal(job),
         "exhaust" => exhaust::job_exhaust(job),
+        "program" => prog::job_program(job),
+        "bristol-out" => bristol::job_bristol_out(job),
+        "bristol-in" => bristol::job_bristol_in(job),
+        "bristol-prog" => bristol::job_bristol_prog(job),
         k => format!("(unknown-kind {k})"),
     }
 }
